@@ -212,7 +212,7 @@ pub enum GateKind {
 pub struct App {
     pub name: String,
     seq: Cell<u64>,
-    log: RefCell<Log>,
+    log: Rc<RefCell<Log>>,
     calls: Cell<u32>,
     /// gates of handlers that are currently waiting, in creation order
     gates: RefCell<Vec<((GateKind, u32), Gate)>>,
@@ -237,10 +237,23 @@ pub struct App {
 
 impl App {
     pub fn new(name: &str) -> Rc<App> {
+        let app = Self::new_inner(name);
+        // only the log (plain data) is kept for post-mortems: holding the App itself would
+        // keep library objects alive beyond their runtime
+        LAST_LOG.with(|l| *l.borrow_mut() = Some(app.log.clone()));
+        app
+    }
+
+    /// log tail of the most recently created app on this thread (post-mortem of aborted scenarios)
+    pub fn last_log_tail(max: usize) -> Vec<String> {
+        LAST_LOG.with(|l| l.borrow().as_ref().map(|log| render_log(&log.borrow(), max)).unwrap_or_default())
+    }
+
+    fn new_inner(name: &str) -> Rc<App> {
         Rc::new(App {
             name: name.to_string(),
             seq: Cell::new(0),
-            log: RefCell::new(Vec::new()),
+            log: Rc::new(RefCell::new(Vec::new())),
             calls: Cell::new(0),
             gates: RefCell::new(Vec::new()),
             pub_plans: RefCell::new(VecDeque::new()),
@@ -378,26 +391,7 @@ impl App {
 
     /// compact rendering of the log for witnesses
     pub fn render(&self, max: usize) -> Vec<String> {
-        let log = self.log.borrow();
-        let skip = log.len().saturating_sub(max);
-        log.iter()
-            .skip(skip)
-            .map(|(s, e)| {
-                let t = match e {
-                    Ev::Wire(p) => format!("<- {}", crate::map::brief(p)),
-                    Ev::PubPayload { call, bytes } => format!("PubPayload call={call} {}B", bytes.len()),
-                    other => {
-                        let mut s = format!("{other:?}");
-                        if s.len() > 220 {
-                            s.truncate(220);
-                            s.push('…');
-                        }
-                        s
-                    }
-                };
-                format!("{s:>4} {t}")
-            })
-            .collect()
+        render_log(&self.log.borrow(), max)
     }
 
     /// hash of the ordered boundary events with payload bytes abstracted (trace signature)
@@ -430,6 +424,10 @@ impl App {
         }
         h
     }
+}
+
+thread_local! {
+    static LAST_LOG: RefCell<Option<Rc<RefCell<Log>>>> = const { RefCell::new(None) };
 }
 
 /// logs `Dropped` when a handler future is cancelled instead of running to completion
@@ -500,4 +498,27 @@ impl TryFrom<TestErr> for ntex_mqtt::v5::PublishAck {
             other => Err(other),
         }
     }
+}
+
+pub fn render_log(log: &Log, max: usize) -> Vec<String> {
+    let skip = log.len().saturating_sub(max);
+    log.iter()
+        .skip(skip)
+        .map(|(s, e)| {
+            let t = match e {
+                Ev::Wire(p) => format!("<- {}", crate::map::brief(p)),
+                Ev::PubPayload { call, bytes } => format!("PubPayload call={call} {}B", bytes.len()),
+                other => {
+                    let mut s = format!("{other:?}");
+                    if s.len() > 220 {
+                        let cut = s.char_indices().take(220).last().map(|x| x.0).unwrap_or(0);
+                        s.truncate(cut);
+                        s.push('…');
+                    }
+                    s
+                }
+            };
+            format!("{s:>4} {t}")
+        })
+        .collect()
 }
